@@ -14,7 +14,7 @@ import sys
 
 src, k, prop = sys.argv[1], sys.argv[2], sys.argv[3]
 needs = sys.argv[5] if len(sys.argv) > 5 and sys.argv[4] == "--needs" else ""
-name = "%s-%s" % (prop, k)
+name = os.environ.get("SEED_NAME") or "%s-%s" % (prop, k)
 wt = "/tmp/sv-" + name
 env = dict(os.environ, GOFLAGS="-mod=mod", GOPROXY="off", GOSUMDB="off", GOTOOLCHAIN="local")
 
